@@ -500,6 +500,13 @@ Definition dec_runspec (j : J) : option (Z * Z) :=
 Definition parts_of {A} (parts : Z) (l : list A) : list (list A) :=
   if parts =? 0 then [l] else split_parts parts l.
 
+(* a run printed as ["=", i] had the same outcome as run i of the same case *)
+Definition resolve_runs (obs : list J) : list J :=
+  map (fun o => match o with
+                | JL [JS "="%string; JI i] => nth (Z.to_nat i) obs JN
+                | _ => o
+                end) obs.
+
 (* all runs of one case: (every run well-formed, every run agrees, every run meets the reference) *)
 Fixpoint judge_runs (stage : Z) (hashed vacuous : bool) (model : Z -> outcome (list row))
          (ref_rows : list row) (runs : list (Z * Z)) (obs : list J) : option (bool * bool) :=
@@ -526,7 +533,7 @@ Definition check_tsp (input output : J) : verdict :=
             let model := fun parts => model_tsp entry sel c keyed size off evs stage (parts_of parts evs) in
             let ref_rows := map ref_row (ref_side entry sel c keyed size off evs stage) in
             let vacuous := (1 <=? stage) && (size <? 1) in
-            match judge_runs stage (stage =? 2) vacuous model ref_rows runs obs with
+            match judge_runs stage (stage =? 2) vacuous model ref_rows runs (resolve_runs obs) with
             | Some (a, p) => V a p (known_side entry sel c size off evs stage) false
             | None => malformed
             end
@@ -642,7 +649,7 @@ Definition check_wjoin (input output : J) : verdict :=
           let model := model_wjoin jkd keyed l r in
           let ref_rows := ref_join jkd (ref_side_of keyed l) (ref_side_of keyed r) in
           let vacuous := side_vacuous l || side_vacuous r in
-          match judge_runs 2 true vacuous model ref_rows runs obs with
+          match judge_runs 2 true vacuous model ref_rows runs (resolve_runs obs) with
           | Some (a, p) => V a p (side_known l || side_known r) false
           | None => malformed
           end
@@ -685,8 +692,8 @@ Definition ref_digest (vs : list Z) : list Z :=
   [Z.of_nat (List.length vs); fold_right Z.add 0 vs; hd 0 vs; last vs 0].
 Definition ref_gbig (via : Z) (keyed : bool) (size off : Z) (evs : list event) (nk wb nt : Z)
   : list (list Z) :=
-  let key e := ref_key 0 0 0 keyed size off e in
-  let group k := map ev_v (filter (fun e => zlist_eqb (key e) k) evs) in
+  let keyed_evs := map (fun e => (ref_key 0 0 0 keyed size off e, ev_v e)) evs in
+  let group k := map snd (filter (fun kv => zlist_eqb (fst kv) k) keyed_evs) in
   let table := flat_map (fun j => map (fun k => ([k; wb + j * size; wb + j * size + size], j))
                                       (if keyed then iota (Z.to_nat nk) 0 else [0]))
                         (iota (Z.to_nat nt) 0) in
@@ -700,7 +707,7 @@ Definition ref_gbig (via : Z) (keyed : bool) (size off : Z) (evs : list event) (
                   | [] => fst t ++ ref_digest [snd t] ++ dg_none
                   | vs => fst t ++ ref_digest [snd t] ++ ref_digest vs
                   end) table
-  else map (fun k => k ++ ref_digest (group k)) (dedup_l (map key evs)).
+  else map (fun k => k ++ ref_digest (group k)) (dedup_l (map fst keyed_evs)).
 
 Definition dec_zrow (j : J) : option (list Z) :=
   match j with
